@@ -138,7 +138,7 @@ CHECKS.update({
     'C04': dict(
         text='Inductive step: spring / positional step with EVERY State array field an independent symbolic input (masses = model constants), control symbolic, and (two-body '
              'scenes) arbitrary symbolic contact geometry: total linear momentum changes by exactly (sum m) g dt. Decided on the additive skeleton of the terms (large non-linear '
-             'chunks abstracted to fresh variables: unsat is sound). Rest clause with Tier B configurations.',
+             'chunks abstracted to fresh variables: unsat is sound). Rest clause (spring, positional) with Tier B configurations; the generalized rest clause is not decided.',
         note='A sat answer of the abstraction is confirmed by a witness search on the real code before it is reported. contact.get is stubbed in the two-body scenes only.',
         technique='symbolic execution of jaxprs; skeleton abstraction + QF_NRA; inductive step over arbitrary states', design='C04'),
     'C05': dict(
@@ -161,6 +161,9 @@ CHECKS.update({
         technique='symbolic execution of vmapped and single jaxprs; term identity / skeleton abstraction; two-copy (2-safety) queries', design='C07'),
 })
 
+# thorough tiers that were run end to end in this sandbox (the others are registered quick-only)
+THOROUGH_OK = set()
+
 NOT_APPLICABLE = {
     'C12': 'needs a reference mechanical energy / momentum built from an independent mechanics oracle (first-principles spec of DESIGN section C02/C12), which was not '
            'built in this deliverable; a first-order consistency query without that oracle would compare brax with itself (DESIGN.md section 6.2)',
@@ -177,7 +180,7 @@ def main():
     checks.append({
         'property_id': pid,
         'quick_cmd': './check %s --tier quick' % pid,
-        'thorough_cmd': './check %s --tier thorough' % pid,
+        **({'thorough_cmd': './check %s --tier thorough' % pid} if pid in THOROUGH_OK else {}),
         'evidence_file': 'evidence/%s.json' % pid,
         'replay_cmd_template': './check %s --tier quick' % pid,
         'engine': 'fx' if pid in ('C13', 'C14') else 'sx',
